@@ -26,6 +26,8 @@ import QV.Proofs.WriterContentDecode
 import QV.Proofs.WriterMsgRefine
 import QV.Proofs.WriterJustified
 import QV.Proofs.WriterAbsStep
+import QV.Proofs.WriterWalk
+import QV.Proofs.WriterSegment
 
 namespace QV.C12
 open QV QV.Writer QV.ServerSafety
@@ -61,9 +63,31 @@ open QV QV.Writer QV.ServerSafety
   itself on 100 % of the generated sessions (model column and, on the implementation's octets, spec
   column of `waudit`). -/
 
+/- The statement as first written (kept for the record):
+
+    def C12_full : Prop :=
+      ∀ (buf : Bytes) (limit : Nat) (mode : CMode) (s : State) (ops : List Op) (mac : Option (List UInt8)),
+        Writer.new buf limit = .ok s → Respects { w := { s with mode := mode } } ops →
+        MacLenOK (fun _ _ => mac.getD []) →
+        let r := Driver.runModel { w := { s with mode := mode } } ops mac true
+        ∃ m, r.msg = some m ∧
+          Spec.Message.checkSession buf.size limit (Driver.toSpecMode mode) (ops.map Driver.toSpecOp)
+            r.statuses (r.pre ++ [m]) r.mac = "ok"
+
+   **Correction of the statement.** As written it quantifies over calls whose arguments are not values
+   of the Rust API's types: the model takes natural numbers, so `set_id 70000`, a 17-bit type or
+   class, a payload size above 65535 or an empty `RdataSet` are calls of the model that the Rust
+   writer cannot receive, and for them the model (which truncates to the field width, as the octets
+   must) and the abstract specification (which records the number given) disagree — `checkSession`
+   reports a difference that no real session can show. The statement therefore needs the hypothesis
+   that every call is typed (`ApiTyped`: `Op.Typed`, the `u16` bounds of `set_edns` / `set_tsig`, and
+   non-empty RRsets). It also needs the limits to be at most 65535 (the largest DNS message; RDLENGTH
+   and the TCP length prefix are 16-bit): (d) is proved for finished messages of at most 65535
+   octets. The driver generates typed calls and limits below 65536 only. -/
 def C12_full : Prop :=
   ∀ (buf : Bytes) (limit : Nat) (mode : CMode) (s : State) (ops : List Op) (mac : Option (List UInt8)),
     Writer.new buf limit = .ok s → Respects { w := { s with mode := mode } } ops →
+    (∀ op ∈ ops, ApiTyped op) → limit ≤ 65535 → (∀ v, Op.setLimit v ∈ ops → v ≤ 65535) →
     MacLenOK (fun _ _ => mac.getD []) →
     let r := Driver.runModel { w := { s with mode := mode } } ops mac true
     ∃ m, r.msg = some m ∧
@@ -536,8 +560,86 @@ theorem C12_accepted_calls_are_accepted_by_the_specification (ss : Session) (op 
 theorem C12_abstract_state_follows (ss : Session) (op : Op) (a a' : Spec.Message.AState)
     (d : Spec.Message.Decoded) (hI : I ss.w) (hop : OpOK ss op) (hA : AbsNum ss.w a)
     (hok : (step ss op).1 = .ok ()) (habs : Spec.Message.absOk a d (Driver.toSpecOp op) = .ok a')
-    (hcur : a'.cur = (step ss op).2.w.cursor) : AbsNum (step ss op).2.w a' :=
+    (hcur : movesCursor op = true → a'.cur = (step ss op).2.w.cursor) : AbsNum (step ss op).2.w a' :=
   absNum_step ss op a a' d hI hop hA hok habs hcur
+
+/-! ### the walk of `checkSession`, for one segment
+
+  `C12_walk_reaches_final_check_partial` (restriction: sessions without `clear_rrs` and `getters`,
+  non-empty RRsets, limits at most 65535): from a fresh writer, `Spec.Message.walk` — run with the
+  specification's initial abstract state on the calls of the session (`toSpecOp`), the statuses the
+  model reports (`statusStr`, then `"ok"` for `finish`), the finished message and its decoding —
+  never rejects: every successful call is accepted by `absOk` (whose `cur`, read off the decoded
+  extents, is the cursor: `extents_prefix`), every failed call is `justified`; it equals the final
+  `checkSegment` in an abstract state `aF` that describes the final writer state (`AbsNum`) and whose
+  header is the decoded header, Z bits zero (the first clause of `checkSegment`), and whose question /
+  record lists and item modes are exactly those of the successful calls (`AbsContent`: the lists
+  `C12_refinement_item_modes` compares the decoded message with).
+  What remains of `C12_full`: the rest of `checkSegment aF d …` (name equality by mode and
+  records — `C12_refinement_item_modes` in the decoder's vocabulary —, TSIG record, size —
+  `C12_limit_all_sequences` —, pointer audit — C13), `getters`, and the segments ended by
+  `clear_rrs`. -/
+theorem C12_walk_reaches_final_check_partial (macFn : Tsig → List UInt8 → List UInt8) (hmac : MacLenOK macFn)
+    (buf : Bytes) (limit : Nat) (s0 : State) (hnew : Writer.new buf limit = .ok s0) (hlim : limit ≤ 65535)
+    (mode : CMode) (ops : List Op) (ht : ∀ op ∈ ops, op.Typed) (hb : ∀ op ∈ ops, ApiBounds op)
+    (hr : Respects { w := { s0 with mode := mode } } ops) (hv : ∀ v, Op.setLimit v ∈ ops → v ≤ 65535)
+    (hno : ∀ op ∈ ops, op ≠ .clearRrs ∧ op ≠ .getters ∧ NonEmptySet op) (mac' : Option (List UInt8)) :
+    ∃ m mac d aF, finish (run { w := { s0 with mode := mode } } ops).1.w macFn = .ok (m, mac) ∧
+      Spec.Message.specDecodeMsg m = some d ∧ AbsNum (run { w := { s0 with mode := mode } } ops).1.w aF ∧
+      aF.hdr = d.msg.header ∧ aF.hdr.z = 0 ∧
+      AbsContent aF (bodyRun {} ops (run { w := { s0 with mode := mode } } ops).2)
+        (mrun { w := { s0 with mode := mode } } {} ops) ∧
+      AbsCfg (run { w := { s0 with mode := mode } } ops).1.w aF ∧
+      Spec.Message.walk false
+          { mode := Driver.toSpecMode mode, buflen := buf.size, limit := min limit buf.size }
+          (ops.map Driver.toSpecOp)
+          ((run { w := { s0 with mode := mode } } ops).2.map Driver.statusStr ++ ["ok"]) [m] (some d) mac' =
+        Spec.Message.checkSegment false aF d m.size mac' :=
+  walk_from_new macFn hmac buf limit s0 hnew hlim mode ops ht hb hr hv hno mac'
+
+/-! ### the clauses of the final check, in the specification's own vocabulary
+
+  `C12_final_check_clauses_partial` (same restriction as the walk: no `clear_rrs`, no `getters`): the
+  walk equals `checkSegment false aF d m.size mac'`, and for this `aF` and `d` the clauses of
+  `checkSegment` hold as the executable specification writes them: the header equals the decoded
+  header with Z = 0; the question count; `listEq` of `nameEq`/type/class over the questions zipped
+  with their item modes; `recsEq` (that is `recordEq`: `nameEq` on the owner, type, class, TTL,
+  `fieldsEq` on the expanded RDATA, each with the mode of the item) for the answer and authority
+  sections and for the additional section up to the OPT record the specification expects
+  (`expectedRecords`), the modes being `itemModes` followed by the mode at `finish`; the size is
+  within the limit of the abstract state; and what follows in the additional section is exactly the
+  TSIG record (if configured), read back as the record given. Not in this theorem: the Bool form of
+  the TSIG check (`tsigRecordOk`, which needs the MAC to have exactly the algorithm's output size),
+  and `auditPointers`. -/
+theorem C12_final_check_clauses_partial (macFn : Tsig → List UInt8 → List UInt8) (hmac : MacLenOK macFn)
+    (buf : Bytes) (limit : Nat) (s0 : State) (hnew : Writer.new buf limit = .ok s0) (hlim : limit ≤ 65535)
+    (mode : CMode) (ops : List Op) (ht : ∀ op ∈ ops, op.Typed) (hb : ∀ op ∈ ops, ApiBounds op)
+    (hr : Respects { w := { s0 with mode := mode } } ops) (hv : ∀ v, Op.setLimit v ∈ ops → v ≤ 65535)
+    (hno : ∀ op ∈ ops, op ≠ .clearRrs ∧ op ≠ .getters ∧ NonEmptySet op) (mac' : Option (List UInt8)) :
+    ∃ m mac d aF, finish (run { w := { s0 with mode := mode } } ops).1.w macFn = .ok (m, mac) ∧
+      Spec.Message.specDecodeMsg m = some d ∧
+      Spec.Message.walk false
+          { mode := Driver.toSpecMode mode, buflen := buf.size, limit := min limit buf.size }
+          (ops.map Driver.toSpecOp)
+          ((run { w := { s0 with mode := mode } } ops).2.map Driver.statusStr ++ ["ok"]) [m] (some d) mac' =
+        Spec.Message.checkSegment false aF d m.size mac' ∧
+      aF.hdr = d.msg.header ∧ aF.hdr.z = 0 ∧ m.size ≤ aF.limit ∧
+      (let modes := aF.itemModes.reverse
+       let qs := aF.questions.reverse
+       let nq := qs.length
+       let ex := Spec.Message.expectedRecords aF
+       let rmodes := modes.drop nq
+       d.msg.questions.length = nq ∧
+       Spec.Message.listEq (fun (p : Spec.Message.Mode × Spec.Message.Question) (q : Spec.Message.Question) =>
+           Spec.Message.nameEq p.1 p.2.qname q.qname && p.2.qtype == q.qtype && p.2.qclass == q.qclass)
+         ((modes.take nq).zip qs) d.msg.questions = true ∧
+       Spec.Message.recsEq rmodes ex.1 d.msg.answers = true ∧
+       Spec.Message.recsEq (rmodes.drop ex.1.length) ex.2.1 d.msg.authorities = true ∧
+       ∃ ds tl, d.msg.additionals = ds ++ tl ∧
+         Spec.Message.recsEq (rmodes.drop (ex.1.length + ex.2.1.length) ++ [aF.mode, aF.mode]) ex.2.2 ds = true ∧
+         All2 (RecordIs ((run { w := { s0 with mode := mode } } ops).1.w.mode ≠ .standard))
+           (tsigRecs (run { w := { s0 with mode := mode } } ops).1.w.tsig mac) tl) :=
+  segment_from_new macFn hmac buf limit s0 hnew hlim mode ops ht hb hr hv hno mac'
 
 /-! non-vacuity: a `CasePreserving` session that respects the contract, whose calls all succeed, and
     that emits two pointers (owner = QNAME; the CNAME target shares a suffix with it) — all
